@@ -219,6 +219,16 @@ def check_c04(b):
         cap = phys(sto.storage_capacity)
         for t, c in cum.items():
             if nb.get(t, 0.0) * cap < c - 1e-3: fails.append(f"storage-nb-covers-cumulative:{sto.name}"); break
+        # a user-fixed count is honoured exactly at every hour (a count below the peak need must have been refused); no fixed count: ceil(need / capacity)
+        sfixed = sto.fixed_nb_of_instances
+        if cum and nb:
+            if isinstance(sfixed, EmptyExplainableObject):
+                for t, c in cum.items():
+                    # within float noise of a whole number either neighbouring ceiling is accepted (floats are not reals: assumption A-REAL)
+                    if not any(close(nb.get(t, float("nan")), float(math.ceil(c / cap + e_)), 1e-9, 1e-9) for e_ in (-1e-9, 1e-9)): fails.append(f"storage-nb=ceil(cumulative/capacity):{sto.name}"); break
+            else:
+                if any(not close(v, phys(sfixed), 1e-9, 1e-9) for v in nb.values()) or set(nb) != set(cum): fails.append(f"storage-fixed-count-honoured-exactly:{sto.name}")
+                if phys(sfixed) < max(math.ceil(c / cap - 1e-9) for c in cum.values()) - 1e-9: fails.append(f"storage-fixed-count-under-provisions-silently:{sto.name}")
         for t, a in act.items():
             if a > nb.get(t, 0.0) + 1e-9: fails.append(f"active<=provisioned:{sto.name}"); break
         for t in set(needed) | set(freed) | set(dumps):
@@ -239,8 +249,9 @@ def _scenario(args):
         try:
             b = H.build(spec)
             if idx is not None:
-                out["edit"] = eds[idx].name
-                eds[idx].live(b)
+                seq = idx if isinstance(idx, tuple) else (idx,)
+                out["edit"] = " ; ".join(eds[k].name for k in seq)
+                for k in seq: eds[k].live(b)
         except Exception as ex:
             out["status"] = "D3" if H.is_float_cancellation_rejection(ex) else "raises"
             out["error"] = f"{type(ex).__name__}: {str(ex)[:150]}"
@@ -280,8 +291,13 @@ def run_prop(prop, tier, seed, procs=16):
     for tname, spec in T.items():
         items.append((prop, tname, spec, None))
         n = len(H.numeric_edits(spec) + H.link_edits(spec))
-        idxs = range(n) if tier == "thorough" else [i for i in range(n) if (i * 7 + seed) % 3 == 0]
-        for i in idxs: items.append((prop, tname, spec, i))
+        for i in range(n): items.append((prop, tname, spec, i))
+        if tier == "thorough":
+            import random
+            rnd = random.Random(f"{seed}|{tname}")
+            for _ in range(60):
+                i, j = rnd.randrange(n), rnd.randrange(n)
+                if i != j: items.append((prop, tname, spec, (i, j)))
     res = H.run_parallel(_scenario, items, procs)
     viol, samples, nontrivial = [], [], 0
     for r in res:
@@ -299,4 +315,4 @@ def run_prop(prop, tier, seed, procs=16):
     return {"evaluations": len(res), "distinct_nontrivial": nontrivial,
             "rule": f"one case = a topology, optionally after one edit of the alphabet; the run-time form of the {prop} contract clauses is evaluated on every object of the computed system; non-trivial = the system computed without raising",
             "samples": samples, "violations": viol, "exhaustive": False,
-            "bound": f"{len(T)} topologies x (as built + {'every' if tier == 'thorough' else 'a third of the'} single edits), series of 6-7 hours"}
+            "bound": f"{len(T)} topologies x (as built + every single edit of the alphabet{' + 60 seeded sequences of two edits' if tier == 'thorough' else ''}), series of 6-10 hours"}
